@@ -378,7 +378,7 @@ func fnSort(ctx *cmdContext, args map[string]any) (output respValue, err error) 
 }
 
 func fnFlushAll(ctx *cmdContext, args map[string]any) (output respValue, err error) {
-	ctx.cs.dss.flushAll(ctx.dsc)
+	ctx.cs.dss.flushAll(ctx.dsc, ctx.cs.multiStoreLockHeld)
 	ctx.cs.selectDb(ctx.cs.selectedDb, true)
 	output.data = rstrOK
 	return
